@@ -1,6 +1,7 @@
 /- Helper lemmas for C16, range part: the shim's Range over an encoded store against the reference
 Range over the MVCC history that store abstracts to. -/
 import KB.Lemmas.Etcd
+import KB.Lemmas.Bounds
 import KB.Props.C03
 namespace KB.Etcd
 open KB Generated
@@ -150,13 +151,12 @@ theorem ne_nil_of_lt {a b : Bytes} (hab : cmp a b = .lt) : b ≠ [] := by
   subst h
   cases a <;> simp at hab
 
-/-- the reference's candidate list for a proper interval -/
-theorem ref_all_interval (recs : List Rec) (hs : SortedRecs recs) (R : Nat) (a b : Bytes)
-    (hb : Alphabet b) (hab : cmp a b = .lt) :
+/-- the reference's candidate list for a proper interval (`range_end` other than etcd's "from key" `\0`) -/
+theorem ref_all_interval' (recs : List Rec) (hs : SortedRecs recs) (R : Nat) (a b : Bytes)
+    (h0 : (b == [0]) = false) (hab : cmp a b = .lt) :
     ((mvccAt recs R).range a b).map KVFull.proj = scanRecs R (recs.filter (inRange a b)) := by
   have hne := ne_nil_of_lt hab
   have hemp : b.isEmpty = false := by cases b <;> simp_all
-  have h0 := alphabet_ne_zero hb hne
   have : scanRecs R (recs.filter (inRange a b)) = (scanRecs R recs).filter (fun e => ble a e.1 && blt e.1 b) :=
     scan_filter_key hs R (fun k => ble a k && blt k b)
   rw [this]
@@ -168,6 +168,25 @@ theorem ref_all_interval (recs : List Rec) (hs : SortedRecs recs) (R : Nat) (a b
   rw [hf]
   have hid : KVFull.proj ∘ fullOf = id := by funext e; rfl
   rw [hid, List.map_id]
+
+theorem ref_all_interval (recs : List Rec) (hs : SortedRecs recs) (R : Nat) (a b : Bytes)
+    (hb : Alphabet b) (hab : cmp a b = .lt) :
+    ((mvccAt recs R).range a b).map KVFull.proj = scanRecs R (recs.filter (inRange a b)) :=
+  ref_all_interval' recs hs R a b (alphabet_ne_zero hb (ne_nil_of_lt hab)) hab
+
+/-- a range bound above a non-empty key over the alphabet is not etcd's "from key" marker `\0` -/
+theorem bound_ne_zero {a b : Bytes} (ha : Alphabet a) (hne : a ≠ []) (hab : cmp a b = .lt) : (b == [0]) = false := by
+  cases a with
+  | nil => exact absurd rfl hne
+  | cons x xs =>
+    have hx : splitByte < x := ha x (by simp)
+    simp only [splitByte] at hx
+    simp only [beq_eq_false_iff_ne, ne_eq]
+    intro hb
+    subst hb
+    have h1 : ¬ x < 0 := by omega
+    have h2 : 0 < x := by omega
+    simp [cmp_cons_cons, h2] at hab
 
 theorem readRev_eq {rev : Int} {committed : Nat} (h0 : 0 ≤ rev) (hlt : rev < 2 ^ 64) :
     (if rev ≤ 0 then committed else rev.toNat) = C03.readRev (toU64 rev) committed := by
@@ -183,8 +202,8 @@ theorem isEmpty_false_of_ne {b : Bytes} (h : b ≠ []) : b.isEmpty = false := by
   cases b <;> simp_all
 
 /-- the reference's answer to a plain range over a proper interval, in terms of the scan -/
-theorem refRangeOn_interval (recs : List Rec) (hs : SortedRecs recs) (R : Nat) (r : RangeReq)
-    (hp : PlainRange r) (hco : r.countOnly = false) (hea : Alphabet r.rangeEnd)
+theorem refRangeOn_interval' (recs : List Rec) (hs : SortedRecs recs) (R : Nat) (r : RangeReq)
+    (hp : PlainRange r) (hco : r.countOnly = false) (h0 : (r.rangeEnd == [0]) = false)
     (hlt : cmp r.key r.rangeEnd = .lt) :
     refRangeOn (mvccAt recs R) r =
       { hdr := R,
@@ -193,7 +212,7 @@ theorem refRangeOn_interval (recs : List Rec) (hs : SortedRecs recs) (R : Nat) (
         count := (scanRecs R (recs.filter (inRange r.key r.rangeEnd))).length,
         more := decide (0 < r.limit.toNat ∧ r.limit.toNat < (scanRecs R (recs.filter (inRange r.key r.rangeEnd))).length) } := by
   obtain ⟨hp1, hp2, hp3, hp4, hp5, hp6⟩ := hp
-  have hfull := ref_all_interval recs hs R r.key r.rangeEnd hea hlt
+  have hfull := ref_all_interval' recs hs R r.key r.rangeEnd h0 hlt
   generalize scanRecs R (recs.filter (inRange r.key r.rangeEnd)) = full at hfull
   generalize hall : (mvccAt recs R).range r.key r.rangeEnd = all at hfull
   have hft : ∀ l : List KVFull, l.filter (fun _ => true) = l := fun l => List.filter_eq_self.mpr (by simp)
@@ -235,20 +254,23 @@ theorem readRev_le {rev : Int} {committed : Nat} (h0 : 0 ≤ rev) (hle : rev ≤
   · simp [hz]
   · simp only [beq_iff_eq, hz, if_false]; omega
 
-theorem range_list_sound (c : Cfg) (s : BState) (recs : List Rec) (hst : StoreAbs c s recs) (r : RangeReq)
-    (hp : PlainRange r) (hco : r.countOnly = false) (hk : r.key ≠ []) (hka : Alphabet r.key)
-    (hea : Alphabet r.rangeEnd) (hlt : cmp r.key r.rangeEnd = .lt) (hr0 : 0 ≤ r.revision)
+/-- the range read against the reference, for bounds that are keys over the alphabet or successors `K ++ [0]`
+of such keys (continue key of a paginated list, end of a single-key range) -/
+theorem range_list_sound_bounds (c : Cfg) (s : BState) (recs : List Rec) (hst : StoreAbs c s recs) (r : RangeReq)
+    (hp : PlainRange r) (hco : r.countOnly = false) (hk : r.key ≠ []) (hka : RangeBound r.key)
+    (hea : RangeBound r.rangeEnd) (h0 : (r.rangeEnd == [0]) = false) (hlt : cmp r.key r.rangeEnd = .lt)
+    (hr0 : 0 ≤ r.revision)
     (hrc : r.revision ≤ s.committed) (hmagic : r.revision ≠ getPartitionMagic) (hcb : s.committed < 2 ^ 64) :
     ∃ a b, shimRange c s r = .ok a ∧ refRangeH (histOf recs s.committed) r = .ok b ∧
       a.hdr = b.hdr ∧ a.kvs = b.kvs ∧ a.more = b.more ∧ a.count ≤ b.count ∧ (a.more = false → a.count = b.count) := by
   have hee := isEmpty_false_of_ne (ne_nil_of_lt hlt)
   have hrl : r.revision < 2 ^ 64 := by omega
-  obtain ⟨res, hres, hhdr, hkvs, hmore⟩ := C03.list_spec c hst.single s hst.store hst.sorted hst.keys
+  obtain ⟨res, hres, hhdr, hkvs, hmore⟩ := doList_bounds_spec c hst.single s hst.store hst.keys
     r.key r.rangeEnd hka hea hlt (toU64 r.revision) r.limit.toNat
   have href := refRangeH_ok recs s.committed r hk hr0 hrc hrl
   have hRle := readRev_le (committed := s.committed) hr0 hrc hrl
   generalize C03.readRev (toU64 r.revision) s.committed = R at hkvs hmore href hRle
-  rw [refRangeOn_interval recs hst.sorted R r hp hco hea hlt] at href
+  rw [refRangeOn_interval' recs hst.sorted R r hp hco h0 hlt] at href
   change res.kvs = (if r.limit.toNat = 0 then scanRecs R (recs.filter (inRange r.key r.rangeEnd))
     else (scanRecs R (recs.filter (inRange r.key r.rangeEnd))).take r.limit.toNat) at hkvs
   change res.more = true ↔ 0 < r.limit.toNat ∧
@@ -306,6 +328,53 @@ theorem range_list_sound (c : Cfg) (s : BState) (recs : List Rec) (hst : StoreAb
     · simp only [hn, if_false, List.length_take, Bool.false_eq_true]
       omega
 
+theorem range_list_sound (c : Cfg) (s : BState) (recs : List Rec) (hst : StoreAbs c s recs) (r : RangeReq)
+    (hp : PlainRange r) (hco : r.countOnly = false) (hk : r.key ≠ []) (hka : Alphabet r.key)
+    (hea : Alphabet r.rangeEnd) (hlt : cmp r.key r.rangeEnd = .lt) (hr0 : 0 ≤ r.revision)
+    (hrc : r.revision ≤ s.committed) (hmagic : r.revision ≠ getPartitionMagic) (hcb : s.committed < 2 ^ 64) :
+    ∃ a b, shimRange c s r = .ok a ∧ refRangeH (histOf recs s.committed) r = .ok b ∧
+      a.hdr = b.hdr ∧ a.kvs = b.kvs ∧ a.more = b.more ∧ a.count ≤ b.count ∧ (a.more = false → a.count = b.count) :=
+  range_list_sound_bounds c s recs hst r hp hco hk (.key hka) (.key hea)
+    (alphabet_ne_zero hea (ne_nil_of_lt hlt)) hlt hr0 hrc hmagic hcb
+
+/-- `count_only` at an explicit revision (/repo 5f2847c): the size of the range read at THAT revision; the whole
+response equals etcd's -/
+theorem range_count_rev_sound (c : Cfg) (s : BState) (recs : List Rec) (hst : StoreAbs c s recs) (r : RangeReq)
+    (hp : PlainRange r) (hco : r.countOnly = true) (hk : r.key ≠ []) (hka : RangeBound r.key)
+    (hea : RangeBound r.rangeEnd) (h0 : (r.rangeEnd == [0]) = false) (hlt : cmp r.key r.rangeEnd = .lt)
+    (hr0 : 0 < r.revision) (hrc : r.revision ≤ s.committed) (hmagic : r.revision ≠ getPartitionMagic)
+    (hcb : s.committed < 2 ^ 64) :
+    ∃ a, shimRange c s r = .ok a ∧ refRangeH (histOf recs s.committed) r = .ok a := by
+  obtain ⟨hp1, hp2, hp3, hp4, hp5, hp6⟩ := hp
+  have hee := isEmpty_false_of_ne (ne_nil_of_lt hlt)
+  have hrl : r.revision < 2 ^ 64 := by omega
+  have hm : (r.revision == getPartitionMagic) = false := by simpa using hmagic
+  have hlist := doList_bounds_unlimited c hst.single s hst.store hst.keys hka hea hlt (toU64 r.revision)
+  have href := refRangeH_ok recs s.committed r hk (by omega) hrc hrl
+  have hRle := readRev_le (committed := s.committed) (rev := r.revision) (by omega) hrc hrl
+  have hRR : (if (toU64 r.revision == 0) = true then s.committed else toU64 r.revision) =
+      C03.readRev (toU64 r.revision) s.committed := rfl
+  rw [hRR] at hlist
+  generalize C03.readRev (toU64 r.revision) s.committed = R at hlist href hRle
+  have hfull := ref_all_interval' recs hst.sorted R r.key r.rangeEnd h0 hlt
+  have hlen : ((mvccAt recs R).range r.key r.rangeEnd).length =
+      (scanRecs R (recs.filter (inRange r.key r.rangeEnd))).length := by rw [← hfull, List.length_map]
+  have hft : ∀ l : List KVFull, l.filter (fun _ => true) = l := fun l => List.filter_eq_self.mpr (by simp)
+  -- the header: nothing counted is newer than the committed revision
+  have hh : hdrOf s.committed (scanRecs R (recs.filter (inRange r.key r.rangeEnd))) = s.committed := by
+    apply hdrOf_le
+    intro e he
+    obtain ⟨k, v, m⟩ := e
+    obtain ⟨x, hx, hxr⟩ := mem_scan_rev (sortedRecs_filter hst.sorted _) he
+    have := hst.newest x (List.mem_filter.mp hx).1
+    simp only
+    omega
+  refine ⟨⟨s.committed, [], (scanRecs R (recs.filter (inRange r.key r.rangeEnd))).length, false⟩, ?_, ?_⟩
+  · simp only [shimRange, hee, hm, hco, hr0, hlist, liftScan, hh, Bool.false_eq_true, if_false, if_true,
+      gt_iff_lt]
+  · rw [href]
+    simp [refRangeOn, hp1, hp2, hp3, hp4, hp5, hp6, hco, inBounds, hft, hlen]
+
 theorem range_count_sound (c : Cfg) (s : BState) (recs : List Rec) (hst : StoreAbs c s recs) (r : RangeReq)
     (hp : PlainRange r) (hco : r.countOnly = true) (hk : r.key ≠ []) (hka : Alphabet r.key)
     (hea : Alphabet r.rangeEnd) (hlt : cmp r.key r.rangeEnd = .lt) (hr0 : r.revision = 0) :
@@ -320,7 +389,8 @@ theorem range_count_sound (c : Cfg) (s : BState) (recs : List Rec) (hst : StoreA
   have hft : ∀ l : List KVFull, l.filter (fun _ => true) = l := fun l => List.filter_eq_self.mpr (by simp)
   have hm : (r.revision == getPartitionMagic) = false := by rw [hr0]; decide
   refine ⟨⟨s.committed, [], (scanRecs s.committed (recs.filter (inRange r.key r.rangeEnd))).length, false⟩, ?_, ?_⟩
-  · simp only [shimRange, hee, hm, hco, hcnt, liftScan, Bool.false_eq_true, if_false, if_true]
+  · have hr : ¬ r.revision > 0 := by omega
+    simp only [shimRange, hee, hm, hco, hcnt, liftScan, Bool.false_eq_true, if_false, if_true, hr]
     rfl
   · simp [refRangeH, hke, hr0, histOf, refRangeOn, hp1, hp2, hp3, hp4, hp5, hp6, hco, inBounds, hft, hlen]
 
